@@ -424,6 +424,7 @@ pub fn judge(cap: usize, term: &[u8], ops: &[OpTrace], seam: SeamInfo) -> Verdic
             }
             (OpKind::Emit(m), OpResult::Err(e)) => {
                 st.failed_calls += 1;
+                had_failure = true;
                 if seam.failures_visible && !err_matches(e) {
                     find!(
                         Rule::Fault,
@@ -466,6 +467,7 @@ pub fn judge(cap: usize, term: &[u8], ops: &[OpTrace], seam: SeamInfo) -> Verdic
             }
             (OpKind::Flush, OpResult::Err(e)) => {
                 st.failed_calls += 1;
+                had_failure = true;
                 if seam.failures_visible && !err_matches(e) {
                     find!(
                         Rule::Fault,
